@@ -17,8 +17,10 @@ META = {
             "rx.dag_longest_path_length on the graph built by _construct_graph_from_queue, incl. the initial "
             "identity, wire-less operations acting on all wires and MidMeasure->Conditional edges) equals the length "
             "of the longest chain of operations in which consecutive operations share an effective wire or are "
-            "linked by a mid-circuit measurement (both inequalities), depth <= number of gates, appending a gate "
-            "changes depth by 0 or 1; estimator Resources: series/parallel addition adds gate counts pointwise, "
+            "linked by a mid-circuit measurement (both inequalities), 0 <= depth <= number of gates, appending a gate "
+            "that brings no new wire changes depth by 0 or 1 (two tidy clauses are REFUTED by vm_compute witnesses: a "
+            "non-empty tape without wires has depth 0; appending a gate on a new wire can raise depth by 2 because "
+            "wire-less operations start acting on it); estimator Resources: series/parallel addition adds gate counts pointwise, "
             "max/sum wire rules as coded, commutative/associative, multiply_* = repeated add_*; Expression "
             "+int/+Expression/*int are homomorphic for evaluation (substitution) and the symbolic total of a "
             "SpecsResources evaluates to the sum of the evaluated counts.  The executable model is evaluated inside "
@@ -37,7 +39,8 @@ META = {
             "distinct mid-measure keys; the longest-chain lower bound assumes the tape has at least one wire "
             "(without wires the code returns depth 0 for a non-empty circuit, shown as an Example). qjit/MLIR "
             "specs paths, PBC depths and pretty printing are not covered. A Conditional whose MidMeasure is absent "
-            "from the tape makes the real depth computation raise KeyError; not modelled (never generated).",
+            "from the tape makes the real depth computation raise KeyError (undo_swaps produces such tapes: reported as "
+            "violation key specs_raised:KeyError-MidMeasure:...); the model draws no edge for it.",
     "assumptions": ["mid-measure dictionary keys are pairwise distinct (depth = longest chain theorems)",
                     "gate_types / Expression dictionaries have pairwise distinct keys (association-list model)",
                     "catalyst/qjit paths of qp.specs are outside the model"],
@@ -158,6 +161,13 @@ def gen_qnode(rng):
         ops = [o for o in ops if o["k"] not in ("mid", "cond")] or [{"k": "g", "name": "Hadamard", "w": [0]}]
     ms = gen_meas(rng, pool, [], [], qnode=True)
     trs = [rng.choice(TRS) for _ in range(rng.choice([0, 1, 2, 2, 3]))]
+    if rng.random() < 0.25:   # tape-splitting pipelines: several non-commuting observables on one wire
+        w = rng.choice(pool)
+        ms = [{"k": "expval", "obs": o, "w": [w]} for o in rng.sample(["X", "Y", "Z"], rng.choice([2, 3]))]
+        trs.insert(rng.randint(0, len(trs)), "split_non_commuting")
+        trs = trs[:3]
+        if "split_non_commuting" not in trs:
+            trs[-1] = "split_non_commuting"
     lv = rng.choice([0, 1, 2, 3, "top", "user", "gradient", "device", "device", None])
     if isinstance(lv, int) and lv > len(trs):
         lv = len(trs)
@@ -388,6 +398,12 @@ def run(ctx):
         {"mode": "x", "op": "total", "l": [{"expr": [[[0, 1], 2], [[], 3]]}, {"int": 2}, {"expr": [[[0], 1]]}],
          "rho": [[0, 1], [1, 2], [2, 0], [3, 0]]},
     ]
+    # regression (found by the thorough tier): undo_swaps re-creates the MidMeasure on the swapped wire but the
+    # Conditional keeps the old MeasurementValue -> CircuitGraph raises KeyError, qp.specs(level="user") fails
+    cases.append({"mode": "qnode", "ops": [{"k": "mid", "w": [1], "id": 0}, {"k": "g", "name": "SWAP", "w": [0, 1]},
+                                           {"k": "cond", "ids": [0], "name": "PauliX", "w": [1]}],
+                  "meas": [{"k": "expval", "obs": "Z", "w": [0]}], "transforms": ["undo_swaps"], "level": "user",
+                  "dev_wires": None, "diff": "best", "compute_depth": None})
     for lv in [0, 1, 2, "top", "user", "gradient", "device", None]:
         c = json.loads(json.dumps(cases[6])); c["level"] = lv; c["transforms"] = c["transforms"][:2]; cases.append(c)
     for _ in range(n_tape):
@@ -431,7 +447,8 @@ def run(ctx):
                 hist["qnode_skipped"] += 1
                 continue
             if "specs_err" in o:
-                ctx.violation("specs_raised:" + ck, {"case": c, "observed": o},
+                ecls = "KeyError-MidMeasure" if o["specs_err"].startswith("KeyError: MidMeasure") else o["specs_err"].split(":")[0]
+                ctx.violation(f"specs_raised:{ecls}:" + ck, {"case": c, "observed": o},
                               what="specs raised on a tape that construct_batch / QuantumScript built: " + o["specs_err"][:100])
                 continue
             if len(o["sums"]) != len(o["tapes"]):
